@@ -84,7 +84,7 @@ class CanStaticSchema: public ICanSchema {
         std::string bus_name_str(bus_name.data(), strnlen(bus_name.data(), bus_name.size()));
 
         {% for impl in fcp.get_matching_impls("can") %}
-        if (sid == {{impl.fields.get('id')}} && bus_name_str == "{{impl.fields.get('bus', 'unkn')}}") {
+        if (sid == {{impl.fields.get('id')}} && bus_name_str == std::string("{{impl.fields.get('bus', 'unkn')}}").substr(0, bus_name.size())) {
             return "{{impl.name}}";
         }
         {% endfor %}
